@@ -170,9 +170,24 @@ def rand_header(rng, allow_cr=True):
 NAME_CHARS = 'abcdxyzQ_01-.'
 
 
+_NAME_POOL: list = []
+
+
 def rand_name(rng, used):
+    """coordinate / dimension names from a fixed pool: scipp keeps every dimension label ever used in a process-wide table of
+    limited size, so a long run must not invent new labels for every case"""
+    if not _NAME_POOL:
+        import random
+
+        r = random.Random(777)
+        seen = set()
+        while len(_NAME_POOL) < 400:
+            n = ''.join(r.choice(NAME_CHARS) for _ in range(r.randint(1, 8)))
+            if n not in seen:
+                seen.add(n)
+                _NAME_POOL.append(n)
     while True:
-        n = ''.join(rng.choice(NAME_CHARS) for _ in range(rng.randint(1, 8)))
+        n = rng.choice(_NAME_POOL)
         if n not in used:
             return n
 
@@ -385,6 +400,7 @@ def correspond(ctx):
     _corr_files(ctx)
     _corr_tables(ctx)
     _corr_refusals(ctx)
+    _corr_histories(ctx)
 
 
 def _sizes(ctx):
@@ -557,6 +573,44 @@ def _corr_tables(ctx):
         ctx.case(('table', text, pm), True, sample={'op': 'load', 'text': text[:200], 'path': pm, 'impl': real if isinstance(real, str) else list(real[:3])})
         if real != model:
             ctx.disagree({'op': 'load', 'path': pm, 'text': text}, real, model)
+
+
+def _corr_histories(ctx):
+    """call histories on one path / file object: the model is a pure function of the last table saved, so every load of the
+    implementation is compared with the model's round trip of that table"""
+    rng = ctx.rng
+    hists = [rand_history(rng) for _ in range(ctx.n(40, 1500))]
+    lines, index = [], {}
+    for h, a in enumerate(hists):
+        last = None
+        for i, st in enumerate(a['steps']):
+            if st['op'] == 'save':
+                last = st
+            elif st['op'] == 'load':
+                index[(h, i)] = len(lines)
+                # a generated header never matters for the table: the model gets an empty one in its place
+                hdr = '' if last['header'] is None else last['header']
+                flat = ' '.join(' '.join(r) for r in last['rows'])
+                lines.append(f"c15.roundtrip p {'f' if last.get('ddtype') == 'float32' else 'd'} {thex(hdr)} {flat}")
+    outs = ctx.driver(lines)
+    for h, a in enumerate(hists):
+        def on_load(i, last, back, h=h, a=a):
+            model = parse_model_load(outs[index[(h, i)]])
+            if isinstance(back, Exception):
+                impl = err_kind(back)
+            else:
+                impl = ('ok', back.sizes[last['dim']], [_b(v) for v in back.coords[last['chosen']].values], [_b(v) for v in back.values],
+                        [_b(v) for v in back.variances])
+            ctx.count('history:' + a['target'].split(':')[0] + ':' + (impl if isinstance(impl, str) else 'ok'))
+            ctx.case(('history', h, i, repr(a['steps'][:i + 1])[:2000]), True)
+            if impl != model:
+                ctx.disagree({'op': 'history', 'target': a['target'], 'step': i, 'ops': [s['op'] for s in a['steps'][:i + 1]]},
+                             impl if isinstance(impl, str) else impl[:2], model if isinstance(model, str) else model[:2],
+                             'load after a history of saves differs from the round trip of the last table saved')
+        try:
+            run_history(a, on_load)
+        except Exception as e:  # noqa: BLE001
+            ctx.disagree({'op': 'history', 'target': a['target']}, err_kind(e), 'ok', 'history raised')
 
 
 def _refusal_cases():
@@ -752,6 +806,138 @@ def check_roundtrip(a):
     return None
 
 
+def _matches(spec, back):
+    """None if the loaded DataArray `back` is what the save described by `spec` wrote (x, y bitwise, variances <= 2 ulp),
+    else a short description"""
+    rows = [tuple(unbits(h) for h in r) for r in spec['rows']]
+    ddtype = spec.get('ddtype', 'float64')
+    n = len(rows)
+    if back.sizes != {spec['dim']: n}:
+        return f'{n} rows written, {dict(back.sizes)} read back'
+    if set(back.coords.keys()) != {spec['chosen']}:
+        return f'coords {list(back.coords.keys())}'
+    xs = back.coords[spec['chosen']].values
+    for i, (x, y, v) in enumerate(rows):
+        if bits(xs[i]) != bits(x):
+            return f'row {i}: coordinate {x!r} read back as {float(xs[i])!r}'
+        if bits(back.values[i]) != bits(y):
+            return f'row {i}: value {y!r} read back as {float(back.values[i])!r}'
+        bv = float(back.variances[i])
+        if ddtype == 'float32':
+            u = abs(Fraction(bv) - Fraction(v)) / _ulp32(v) if math.isfinite(bv) else math.inf
+        else:
+            u = ulp_distance(bv, v)
+        if not u <= 2:
+            return f'row {i}: variance {v!r} read back as {bv!r}'
+    return None
+
+
+def _history_da(spec):
+    rows = [tuple(unbits(h) for h in r) for r in spec['rows']]
+    return make_da(rows, spec['dim'], spec['names'], spec['chosen'], 'counts', ['m'] * len(spec['names']),
+                   spec.get('cdtype', 'float64'), spec.get('ddtype', 'float64'))
+
+
+def run_history(a, on_load):
+    """replay a call history on ONE target (a path as str / pathlib.Path, or one text-mode file object): steps are
+    {'op': 'save', ...table...}, {'op': 'save-other', ...} (an unrelated save to another path) and {'op': 'load'};
+    on_load(index, last_save_spec, loaded DataArray or exception) is called for every load"""
+    import scipp as sc
+    from scippneutron.io.xye import load_xye, save_xye
+
+    tgt = a['target']
+    with tempfile.TemporaryDirectory() as d, warnings.catch_warnings():
+        warnings.simplefilter('ignore')
+        if tgt == 'file':
+            fobj = open(os.path.join(d, 'table.txt'), 'w+', encoding='utf-8')  # noqa: SIM115
+            target = fobj
+        else:
+            fobj = None
+            target, _ = _as_target(tgt, d)
+        other = os.path.join(d, 'other.xye')
+        last = None
+        try:
+            for i, st in enumerate(a['steps']):
+                if st['op'] in ('save', 'save-other'):
+                    da = _history_da(st)
+                    kw = {}
+                    if st['header'] is not None:
+                        kw['header'] = st['header']
+                    if st['coord_arg'] is not None:
+                        kw['coord'] = st['coord_arg']
+                    if st['op'] == 'save-other':
+                        save_xye(other, da, **kw)
+                        continue
+                    if fobj is not None:
+                        fobj.seek(0)
+                        fobj.truncate()
+                    save_xye(target, da, **kw)
+                    if fobj is not None:
+                        fobj.flush()
+                    last = st
+                else:
+                    if fobj is not None:
+                        fobj.seek(0)
+                    try:
+                        da0 = _history_da(last)
+                        back = load_xye(target, dim=last['dim'], unit=da0.unit, coord_unit=da0.coords[last['chosen']].unit,
+                                        coord=last['chosen'])
+                    except Exception as e:  # noqa: BLE001
+                        back = e
+                    on_load(i, last, back)
+        finally:
+            if fobj is not None:
+                fobj.close()
+    del sc
+
+
+def check_history(a):
+    """every load returns what the LAST save to that target wrote, whatever was saved / loaded before, also when the same
+    file is loaded twice and after an unrelated save to another path"""
+    found = []
+    saves = [st for st in a['steps'] if st['op'] == 'save']
+
+    def on_load(i, last, back):
+        if found:
+            return
+        if isinstance(back, Exception):
+            found.append(('history-dependent', f'step {i}: load_xye raised {type(back).__name__}: {back}'))
+            return
+        msg = _matches(last, back)
+        if msg is None:
+            return
+        stale = [k for k, st in enumerate(saves) if st is not last and _matches(dict(st, dim=last['dim'], chosen=last['chosen']), back) is None]
+        if stale:
+            found.append(('stale-load', f'step {i}: load_xye({a["target"]}) returned the table of save #{stale[-1]} '
+                                        f'({len(saves[stale[-1]]["rows"])} rows), not of the last save ({len(last["rows"])} rows): {msg}'))
+        else:
+            found.append(('history-dependent', f'step {i}: load after {sum(1 for s in a["steps"][:i] if s["op"] == "save")} saves: {msg}'))
+
+    try:
+        run_history(a, on_load)
+    except Exception as e:  # noqa: BLE001
+        return 'history-dependent', f'raised {type(e).__name__}: {e}'
+    return found[0] if found else None
+
+
+def rand_history(rng):
+    tgt = rng.choice(['file'] + TARGETS[2:])
+    steps = []
+    nsave = rng.randint(2, 4)
+    for k in range(nsave):
+        spec = _oracle_case(rng, rng.choice([1, 2, 3, rng.randint(1, 30)]), allow_cr=False)
+        steps.append({'op': 'save', **{key: spec[key] for key in ('rows', 'header', 'names', 'dim', 'chosen', 'coord_arg', 'cdtype', 'ddtype')}})
+        steps.append({'op': 'load'})
+        r = rng.random()
+        if r < 0.35:
+            steps.append({'op': 'load'})               # the same unchanged file twice
+        elif r < 0.6:
+            sp2 = _oracle_case(rng, rng.randint(1, 5), allow_cr=False)
+            steps.append({'op': 'save-other', **{key: sp2[key] for key in ('rows', 'header', 'names', 'dim', 'chosen', 'coord_arg', 'cdtype', 'ddtype')}})
+            steps.append({'op': 'load'})
+    return {'target': tgt, 'steps': steps}
+
+
 def _blame(a, otherwise):
     """the target is to blame iff the same table and header round-trip through a StringIO; the header is to blame iff the
     same table with an empty header round-trips"""
@@ -877,6 +1063,27 @@ def oracle(ctx, deep):
                 if r2 and r2[0] == r[0]:
                     a, r = small, r2
             ctx.violation('C15:' + r[0], r[1], {'check': 'roundtrip', 'args': a})
+    for _ in range(ctx.n(60, 2500) if not deep else 300):
+        a = rand_history(rng)
+        r = check_history(a)
+        ctx.case(('history', repr(a)[:3000]), True)
+        ctx.count('oracle:history:' + a['target'].split(':')[0])
+        if r:
+            # minimise: shortest violating prefix, then drop steps one at a time
+            for k in range(2, len(a['steps']) + 1):
+                r2 = check_history(dict(a, steps=a['steps'][:k]))
+                if r2 and r2[0] == r[0]:
+                    a, r = dict(a, steps=a['steps'][:k]), r2
+                    break
+            j = 0
+            while j < len(a['steps']) - 1:
+                cand = dict(a, steps=a['steps'][:j] + a['steps'][j + 1:])
+                r2 = check_history(cand) if any(st['op'] == 'save' for st in cand['steps'][:1]) else None
+                if r2 and r2[0] == r[0]:
+                    a, r = cand, r2
+                else:
+                    j += 1
+            ctx.violation('C15:' + r[0], r[1], {'check': 'history', 'args': a})
     for kind in LOSSY:
         for n in (1, 2, 7):
             for header in (None, '', 'h\n#'):
@@ -899,7 +1106,7 @@ def oracle(ctx, deep):
 
 def replay(ctx, payload):
     w = payload.get('witness', {})
-    fn = {'roundtrip': check_roundtrip, 'lossy': check_lossy, 'gap': check_gap}.get(w.get('check'))
+    fn = {'roundtrip': check_roundtrip, 'lossy': check_lossy, 'gap': check_gap, 'history': check_history}.get(w.get('check'))
     if fn is None:
         print('no replay for', payload.get('key'))
         return False
